@@ -29,8 +29,20 @@ def _load(sidecars):
 
 def verify_one(task):
     """Worker: verify + discharge one function / lemma. Returns a plain dict."""
-    sidecars, key, djobs = task
+    sidecars, key, djobs = task[:3]
+    budget = task[3] if len(task) > 3 else None
     t0 = time.time()
+
+    class _Budget(BaseException):
+        pass
+
+    def _on_alarm(*_a):
+        raise _Budget()
+
+    if budget:
+        import signal
+        signal.signal(signal.SIGALRM, _on_alarm)
+        signal.alarm(int(budget))
     try:
         from pyvc import verify
         reg, sources = _load(sidecars)
@@ -51,9 +63,30 @@ def verify_one(task):
                 "assumptions": sorted(rep.assumptions), "inlined": rep.inlined, "contracts_used": rep.contracts_used,
                 "time": round(time.time() - t0, 2), "stats": rep.stats,
                 "file": (sources.get(key.split(":")[0]).path if sources.get(key.split(":")[0]) else None)}
+    except _Budget:
+        try:
+            from pyvc import verify as _v
+            _v.kill_children()
+        except Exception:
+            pass
+        return {"key": key, "status": "budget_exceeded", "reason": f"not completed within the time budget of {budget} s",
+                "obligations": [], "time": round(time.time() - t0, 2)}
     except Exception as e:  # checker crash: exit 3
+        if budget and ("_Budget" in f"{type(e).__name__}: {e}" or time.time() - t0 >= budget - 1):
+            # the alarm went off inside a solver call-back: ctypes wraps the exception
+            try:
+                from pyvc import verify as _v
+                _v.kill_children()
+            except Exception:
+                pass
+            return {"key": key, "status": "budget_exceeded", "reason": f"not completed within the time budget of {budget} s",
+                    "obligations": [], "time": round(time.time() - t0, 2)}
         return {"key": key, "status": "checker_error", "reason": f"{type(e).__name__}: {e}",
                 "trace": traceback.format_exc()[-3000:], "obligations": [], "time": round(time.time() - t0, 2)}
+    finally:
+        if budget:
+            import signal
+            signal.alarm(0)
 
 
 def run_driver(modname, prop, tier, seed, jobs):
@@ -144,9 +177,14 @@ def main(argv):
         print(f"CHECKER-ERROR builtin axiom disagrees with CPython: {ax_bad[:3]}")
         return 3
     # ---- proof obligations
-    targets = list(P.prove) + (list(P.prove_thorough) if args.tier == "thorough" else [])
+    extra = list(P.prove_thorough) if args.tier == "thorough" else []
+    targets = extra + list(P.prove)  # the long-running targets first
     djobs = max(1, args.jobs // max(1, len(targets)))  # spare cores discharge one function's obligations in parallel
-    tasks = [(tuple(P.sidecars), k, djobs) for k in targets]
+    # thorough-only targets (minutes of VC generation, thousands of obligations each) run under a wall-clock budget and
+    # discharge with a few workers of their own; what does not complete within the budget is reported as not completed
+    # (evidence: thorough_targets_not_completed) and does not decide the exit code -- a refuted obligation still does
+    budget = int(os.environ.get("PYVC_THOROUGH_BUDGET_S", "3000"))
+    tasks = [(tuple(P.sidecars), k, max(djobs, 4), budget) for k in extra] + [(tuple(P.sidecars), k, djobs) for k in P.prove]
     results = []
     if tasks:
         nproc = max(1, min(args.jobs, len(tasks)))
@@ -159,7 +197,8 @@ def main(argv):
     # ---- second chance for undecided functions: re-verify them one at a time with all cores (solver give-ups and
     # feasibility time-outs of the first pass are mostly contention between the parallel workers)
     for i, r in enumerate(results):
-        if r.get("status") == "ok" and any(o.get("status") == "undecided" for o in r.get("obligations", [])):
+        if (r.get("status") == "ok" and r["key"] not in extra
+                and any(o.get("status") == "undecided" for o in r.get("obligations", []))):
             r2 = verify_one((tuple(P.sidecars), r["key"], max(1, args.jobs)))
             n1 = sum(o.get("status") == "undecided" for o in r["obligations"])
             n2 = sum(o.get("status") == "undecided" for o in r2.get("obligations", [])) if r2.get("status") == "ok" else n1
